@@ -7,7 +7,7 @@ from .c18 import consumers
 TEXT = ('Resources are never destroyed on the audio thread (Engine A: no deallocation reachable from the callback roots; '
         'every drop site discharged); every value taken out of an arena on the audio thread is moved into the unused-'
         'resource ring; the caller drains that ring before every insert and the rings share the arena\'s capacity; creation '
-        'sites propagate the limit error (never unwrap); every handle with a removal flag sets it on drop and the audio-side '
+        'sites propagate the limit error (never unwrap); every path that returns after a successful try_reserve hands the key to insert_with_key (no leaked slot); every handle with a removal flag sets it on drop and the audio-side '
         'predicate of the matching storage reads it; keys inside the public ids flow only into generation-checked arena '
         'APIs; handles are not Clone (thorough: compile-fail witnesses) and creation paths cannot panic (thorough: effect '
         'analysis from creation roots). Exact accounting over long histories and the two-thread handshake are not decided.')
@@ -38,11 +38,42 @@ def run(ctx, R, tier):
     errs(F, R)
     drops(F, R)
     keys(F, R)
+    reserve(F, R)
     if tier == 'thorough':
         from ..witness import run_witnesses
         run_witnesses(R, 'C08')
         from ..creation import run_creation
         run_creation(ctx, R)
+
+
+def reserve(F, R):
+    """Exact accounting: a reserved slot is always filled.  In every function that reserves a key
+    (`ResourceController::try_reserve`), each path that returns after the reservation SUCCEEDED hands the key to
+    `insert_with_key`; a fallible step between the two (an early `?` return) would leak the slot for ever: the count
+    stays above created - removed and creation fails with nothing alive."""
+    n = 0
+    for b in F.bodies:
+        if b.krate != 'kira' or '{closure' in b.path:
+            continue
+        tr = [bb for bb, t in b.calls() if (callee_path(t) or '').endswith('ResourceController::<T>::try_reserve')]
+        if not tr:
+            continue
+        ins = set(bb for bb, t in b.calls() if (callee_path(t) or '').endswith('ResourceController::<T>::insert_with_key'))
+        n += 1
+        bad = None
+        for p in explore(b):
+            if p.end != 'return':
+                continue
+            blocks = set(p.blocks)
+            if not (blocks & set(tr)) or (blocks & ins):
+                continue
+            failed = any('try_reserve' in d and lab in ('Break', 'Err') for _, d, lab in p.decisions)
+            if not failed:
+                bad = str(p.ret)[:100]
+        R.check(bad is None, 'B.C08.reserve', b.path,
+                '%s can return (%s) after a successful try_reserve without inserting: the reserved slot leaks' % (b.path, bad),
+                detail='try_reserve()? ... insert_with_key(key, _) on every path', where=b.file)
+    R.floor('B.C08.reserve', n, 5)
 
 
 def recycle(F, R):
